@@ -4,8 +4,6 @@ import re
 from collections.abc import Mapping, MutableMapping
 from typing import Optional, Union
 
-from .iterators import peekable_iter
-
 # Expression formatting
 
 
@@ -18,7 +16,8 @@ def format_expr(expr: Union[str, ast.AST]) -> str:
 
 
 UNQUOTED_BACKTICK_MATCHER = re.compile(
-    r"(\\\"|\"(?:\\.|[^\"\\])*\"|\\'|'(?:\\.|[^'\\])*'|`)", re.DOTALL
+    r"(\\\"|\"(?:\\.|[^\"\\])*\"|\\'|'(?:\\.|[^'\\])*'|`(?:\\.|[^`\\])*`)",
+    re.DOTALL,
 )
 
 
@@ -49,25 +48,23 @@ def sanitize_variable_names(
         The sanitized expression.
     """
 
-    expr_parts = peekable_iter(UNQUOTED_BACKTICK_MATCHER.split(expr))
-
+    # Splitting on a pattern with one group gives text parts at the even
+    # positions and the matched parts (string literals, escaped quotes, whole
+    # back-quoted names) at the odd ones. The leftmost match wins, so a quote
+    # character inside a back-quoted name does not start a string literal (and
+    # vice versa); inside back-quotes a backslash keeps the next character, as
+    # in the formula tokenizer. An unterminated back-quote matches nothing and
+    # is left as it is.
     sanitized_expr = []
 
-    for expr_part in expr_parts:
-        if expr_part == "`":
-            variable_name_parts = []
-            while expr_parts.peek(None) not in ("`", None):
-                variable_name_parts.append(next(expr_parts))
-            variable_name = "".join(variable_name_parts)
-            if expr_parts.peek(None) is None:
-                sanitized_expr.append(f"`{variable_name}")
-            else:
-                next(expr_parts)
-                new_name = sanitize_variable_name(
-                    variable_name, env, template=template, aliases=aliases
-                )
-                aliases[new_name] = variable_name
-                sanitized_expr.append(f" {new_name} ")
+    for index, expr_part in enumerate(UNQUOTED_BACKTICK_MATCHER.split(expr)):
+        if index % 2 == 1 and expr_part.startswith("`"):
+            variable_name = expr_part[1:-1]
+            new_name = sanitize_variable_name(
+                variable_name, env, template=template, aliases=aliases
+            )
+            aliases[new_name] = variable_name
+            sanitized_expr.append(f" {new_name} ")
         else:
             sanitized_expr.append(expr_part)
 
